@@ -287,7 +287,26 @@ def write_replay(pid, tag, payload):
 
 # ---------------------------------------------------------------- main
 
-def run_plan(plan, tier, seed, wd, extra_cfgs=()):
+WIDE_BUDGET = 40_000_000     # sum of capacity x operations over the cases above capacity 1000: a few minutes on 16 cores
+
+
+def within_budget(cases, budget, seed):
+    """The steered search runs whole families at capacities in the thousands, where a model step costs time
+    proportional to the capacity. Keep every case at capacities up to 1000 and a seeded subsample of the larger
+    ones such that the sum of (capacity x operations) stays within [budget]."""
+    cost = lambda c: c.N * (len(c.ops) + 1)
+    big = [c for c in cases if 1000 < c.N < (1 << 40)]
+    total = sum(cost(c) for c in big)
+    if total <= budget:
+        return cases
+    import cases as C
+    r = C.Rng(seed * 31 + 5)
+    keep_num, keep_den = budget, total
+    kept = set(id(c) for c in big if r.below(keep_den) < keep_num)
+    return [c for c in cases if not (1000 < c.N < (1 << 40)) or id(c) in kept]
+
+
+def run_plan(plan, tier, seed, wd, extra_cfgs=(), budget=None):
     """runs the correspondence + oracle part; returns results per configuration"""
     ok, driver = E.build_driver()
     if not ok:
@@ -300,6 +319,8 @@ def run_plan(plan, tier, seed, wd, extra_cfgs=()):
             continue
         dbg = E.CONFIGS[cfg][3]
         cases = plan.gen_cfg(tier, seed, cfg) if hasattr(plan, "gen_cfg") else plan.gen(tier, seed)
+        if budget:
+            cases = within_budget(cases, budget, seed)
         parsed = E.run_both(cases, dbg, driver, harness, os.path.join(wd, cfg), unst=cfg.startswith("unstable"))
         ofail, cfail, stats = compare(plan, cases, parsed, dbg)
         results.append({"cfg": cfg, "cases": cases, "ofail": ofail, "cfail": cfail, "stats": stats,
@@ -354,6 +375,8 @@ def main():
 
     # srcfp item name -> translated function name (the translator reports which source item each function is)
     item_of = {v: k for k, v in (cg.get("items") or {}).items()}
+    # a destructor declared inside a function is part of the translation of that function
+    item_of.update(cg.get("covered_items") or {})
 
     def core_name(item):
         return item_of.get(item)
@@ -456,7 +479,8 @@ def main():
                 xcfg = []
                 if any("@unstable" in n for n in fp.get("changed", [])) and plan.spec is not None and pid != "C16":
                     xcfg.append("unstable")
-                wide = run_plan(plan, wide_tier, seed + 7919, os.path.join(wd, "wide"), extra_cfgs=xcfg)
+                wide = run_plan(plan, wide_tier, seed + 7919, os.path.join(wd, "wide"), extra_cfgs=xcfg,
+                                budget=(WIDE_BUDGET if steer else None))
                 for r in wide:
                     if r.get("ofail"):
                         found = (r, r["ofail"][0])
@@ -512,14 +536,20 @@ def main():
             "extraction_crosscheck": {k: xr.get(k) for k in ("ok", "cases", "mismatch_count", "constructors_covered",
                                                               "constructors_total", "numbers_compared", "wall_s")},
             "regenerated_core_model": {"ok": cg.get("ok"), "functions_translated_and_proved_equal": sorted(proved),
-                                       "skipped": cg.get("skipped"), "failed": cg.get("failed")},
+                                       "skipped": cg.get("skipped"), "failed": cg.get("failed"),
+                                       "statement_preconditions": cg.get("preconditions"), "relative_to_hand_callees": cg.get("hand_callees"),
+                                       "covered_by_parent": cg.get("covered_items"),
+                                       "std_table_entries": len(cg.get("std_table") or [])},
             "source_fingerprint": {"ok": fp_ok, "harmless_rewrite_of": fp.get("harmless_rewrite_of"), "functions_in_scope": fp.get("functions_in_scope"),
                                    "functions_total": fp.get("functions_total"), "changed": fp.get("changed"),
                                    "new_items": fp.get("new_items")},
             "checker_cmd": "make -C /verif/coq (coqc 8.16.1, full .vo build) && coqc Properties/%s.v with Print Assumptions; then ./check %s %s" % (pid, pid, tier),
             "trusted_base": ["Coq 8.16.1 kernel (no native_compute)", "extraction ExtrOcamlBasic + OCaml 4.13.1 driver",
                              "Rust harness + hooks (--cfg circular_buffer_verif)", "case generators tools/cases.py, tools/props.py",
-                             "hand-written model coq/theories/*.v tied to /repo by the correspondence check only"],
+                             "translator tools/rs2coq_core (syn parser, its std table of %d renderings) for the %d functions regenerated "
+                             "from src/*.rs and proved equal to the hand model" % (len(cg.get("std_table") or []), len(proved)),
+                             "hand-written model coq/theories/*.v for everything else (tied to /repo by the correspondence check and "
+                             "the source fingerprint tools/srcfp.py)"],
             "theorems": pinfo["theorems"], "assumptions": sorted(set(pinfo["assumptions"])),
             "theorem_file_sha256": pinfo.get("file_sha256"), "coqchk": pinfo.get("coqchk"),
             "proof_problems": pinfo["problems"],
